@@ -3,6 +3,13 @@ open Driver
 
 let evs_dummy _ _ _ _ _ = Nil
 
+let color_out out tbl rs =
+  let t = Hashtbl.create 16 in
+  List.iter (function L (k :: v) -> Hashtbl.replace t (int_of_string (atom k)) (cps v) | _ -> failwith "sgr") tbl;
+  let sgr tok = try Hashtbl.find t (int_of_n tok) with Not_found -> [] in
+  let cs = color_render is_space_u sgr (cps rs) out in
+  "W " ^ str_out (written cs) ^ " | U " ^ str_out (unstyled cs)
+
 let handle (x : sexp) : Stdlib.String.t =
   match x with
   | L (A "space" :: l) ->
@@ -61,6 +68,15 @@ let handle (x : sexp) : Stdlib.String.t =
                     (zint indent) (zint w) (zint rw) None (z_of_int 1000) false with
             | None -> "FUEL"
             | Some s -> "R " ^ str_out s ^ " | W " ^ ws ^ " | V " ^ string_of_int (List.length st.g_visited)))
+  | L [A "colorv"; indent; w; rw; depth; maxlen; sort; v; L tbl; L rs] ->
+      (match sdocs_model printable is_space_u is_word_u is_linebreak big_fuel big_fuel (val_of v)
+               (zint indent) (zint w) (zint rw) (optz depth) (zint maxlen) (boolv sort) with
+       | None -> "FUEL"
+       | Some out -> color_out out tbl rs)
+  | L [A "colord"; smart; w; rw; d; L tbl; L rs] ->
+      (match best_layout evs_dummy big_fuel big_fuel (boolv smart) (zint w) (zint rw) (doc_of d) with
+       | None -> "FUEL"
+       | Some out -> color_out out tbl rs)
   | L [A "dcshow"; A kind; r; a; b; c; d] ->
       let f = if kind = "dc" then dc_display else attrs_display in
       if f (boolv r) (boolv a) (boolv b) (boolv c) (boolv d) then "1" else "0"
